@@ -494,7 +494,7 @@ theorem actP_tokenColon (hact : expected s.mode b = .tokenColon) :
   | ok a =>
     simp [nr3, mapS, bind, Except.bind, pure, Except.pure, norm, setScr, liveScr]
 
-theorem actP_strQuote (hact : expected s.mode b = .strQuote) :
+theorem actP_strQuote (hpf : cfg.plusFault = false) (hact : expected s.mode b = .strQuote) :
     nr3 (stepActP refTables cfg s i b) = nr3 (stepActP refTables cfg (norm s) i b) := by
   obtain ⟨_, f2, _⟩ := live_facts s.mode b
   simp only [hact, needsStr, forall_const] at f2
@@ -502,7 +502,7 @@ theorem actP_strQuote (hact : expected s.mode b = .strQuote) :
   have ht : (norm s).tmp = s.tmp := rfl
   have hq : (norm s).quoteDelim = s.quoteDelim := by simp [norm, setScr, liveScr, f2]
   unfold stepActP
-  simp only [refTables, hm, hact, ht, hq]
+  simp only [refTables, hm, hact, ht, hq, hpf, Bool.false_eq_true, ↓reduceIte]
   by_cases hb : b = s.quoteDelim
   · simp only [hb, ↓reduceIte]
     rw [norm_def, addStringP_frame]
@@ -588,7 +588,7 @@ theorem actP_openArray (hact : expected s.mode b = .openArray) :
     simp only [h', nr3, mapS, bind, Except.bind, pure, Except.pure, undelivered_setScr]
     simp [norm, setScr, liveScr, startP]
 
-theorem actP_closeObject (hact : expected s.mode b = .closeObject) :
+theorem actP_closeObject (hmv : cfg.missingValue = false) (hact : expected s.mode b = .closeObject) :
     nr3 (stepActP refTables cfg s i b) = nr3 (stepActP refTables cfg (norm s) i b) := by
   have hf := flush_facts s.mode b (by rw [hact]; rfl)
   have hm : (norm s).mode = s.mode := rfl
@@ -613,6 +613,10 @@ theorem actP_closeObject (hact : expected s.mode b = .closeObject) :
         cases a.stack with
         | nil => rfl
         | cons top below =>
+          simp only [hmv, Bool.not_false, Bool.and_true]
+          by_cases htk : topIsKey (top :: below) = true
+          · simp only [htk, ↓reduceIte]
+          simp only [htk, Bool.false_eq_true, ↓reduceIte]
           simp only [addFeat_setScr]
           have e1 : ({ (if topIsKey (top :: below) = true then setScr (liveScr s.mode s) (a.addFeat 'v') else setScr (liveScr s.mode s) a) with
                 starts := rest, stack := below } : St) =
@@ -707,8 +711,8 @@ theorem actP_closeParen (hact : expected s.mode b = .closeParen) :
 
 end flushActs
 
-theorem stepActP_norm (cfg : Cfg) (s : St) (i : Bool) (b : UInt8) :
-    nr3 (stepActP refTables cfg s i b) = nr3 (stepActP refTables cfg (norm s) i b) := by
+theorem stepActP_norm (cfg : Cfg) (hpf : cfg.plusFault = false) (hmv : cfg.missingValue = false) (s : St) (i : Bool)
+    (b : UInt8) : nr3 (stepActP refTables cfg s i b) = nr3 (stepActP refTables cfg (norm s) i b) := by
   cases hact : expected s.mode b with
   | skipChar => exact actP_skipChar cfg s i b hact
   | skipNewline => exact actP_skipNewline cfg s i b hact
@@ -723,7 +727,7 @@ theorem stepActP_norm (cfg : Cfg) (s : St) (i : Bool) (b : UInt8) :
   | openArray => exact actP_openArray cfg s i b hact
   | openObject => exact actP_openObject cfg s i b hact
   | closeArray => exact actP_closeArray cfg s i b hact
-  | closeObject => exact actP_closeObject cfg s i b hact
+  | closeObject => exact actP_closeObject cfg s i b hmv hact
   | closeParen => exact actP_closeParen cfg s i b hact
   | colonColon => exact actP_colonColon cfg s i b hact
   | numSpc => exact actP_numSpc cfg s i b hact
@@ -734,7 +738,7 @@ theorem stepActP_norm (cfg : Cfg) (s : St) (i : Bool) (b : UInt8) :
   | fracE => exact actP_fracE cfg s i b hact
   | expSign => exact actP_expSign cfg s i b hact
   | expDigit => exact actP_expDigit cfg s i b hact
-  | strQuote => exact actP_strQuote cfg s i b hact
+  | strQuote => exact actP_strQuote cfg s i b hpf hact
   | negDigit => exact actP_negDigit cfg s i b hact
   | strSlash => exact actP_strSlash cfg s i b hact
   | escOk => exact actP_escOk cfg s i b hact
@@ -769,8 +773,8 @@ theorem norm_idem (s : St) : norm (norm s) = norm s := by
     simp [norm, setScr, liveScr, hN, hS, hU]
 
 section chain
-variable (cfg : Cfg) (hc : cfg.tokenizer = false)
-include hc
+variable (cfg : Cfg) (hc : cfg.tokenizer = false) (hpf : cfg.plusFault = false) (hmv : cfg.missingValue = false)
+include hc hpf hmv
 
 theorem deliver_norm (s : St) : nrS (deliver refTables cfg s) = nrS (deliver refTables cfg (norm s)) := by
   have hm : (norm s).mode = s.mode := rfl
@@ -796,10 +800,10 @@ theorem nextFast_norm (s : St) (b : UInt8) (f : Fast) :
 
 theorem stepCore_norm (s : St) (f : Fast) (b : UInt8) :
     nrF (stepCore refTables cfg s f b) = nrF (stepCore refTables cfg (norm s) f b) := by
-  have hA := stepActP_norm cfg s f.inFast b
+  have hA := stepActP_norm cfg hpf hmv s f.inFast b
   have hm : (norm s).mode = s.mode := rfl
   unfold stepCore stepAct
-  simp only [hc, Bool.false_eq_true, ↓reduceIte, hm, ← nextFast_norm cfg hc s b f]
+  simp only [hc, Bool.false_eq_true, ↓reduceIte, hm, ← nextFast_norm cfg hc hpf hmv s b f]
   cases h1 : stepActP refTables cfg s f.inFast b with
   | error e =>
     cases h2 : stepActP refTables cfg (norm s) f.inFast b with
@@ -820,7 +824,7 @@ theorem stepCore_norm (s : St) (f : Fast) (b : UInt8) :
       | false =>
         simp only [Bool.false_eq_true, ↓reduceIte]
         have hd : nrS (deliver refTables cfg s1) = nrS (deliver refTables cfg s1') := by
-          rw [deliver_norm cfg hc s1, deliver_norm cfg hc s1', hs]
+          rw [deliver_norm cfg hc hpf hmv s1, deliver_norm cfg hc hpf hmv s1', hs]
         cases h3 : deliver refTables cfg s1 with
         | error e =>
           cases h4 : deliver refTables cfg s1' with
@@ -850,13 +854,13 @@ theorem addFeat_norm (s : St) (c : Char) : norm (s.addFeat c) = (norm s).addFeat
   cases h : s.feat.contains c <;> simp only [h, Bool.false_eq_true, ↓reduceIte] <;> rfl
 
 section chain2
-variable (cfg : Cfg) (hc : cfg.tokenizer = false)
-include hc
+variable (cfg : Cfg) (hc : cfg.tokenizer = false) (hpf : cfg.plusFault = false) (hmv : cfg.missingValue = false)
+include hc hpf hmv
 
 /-- two states with the same normal form give the same (normalised) core step -/
 theorem stepCore_congr (s s' : St) (h : norm s = norm s') (f : Fast) (b : UInt8) :
     nrF (stepCore refTables cfg s f b) = nrF (stepCore refTables cfg s' f b) := by
-  rw [stepCore_norm cfg hc s, stepCore_norm cfg hc s', h]
+  rw [stepCore_norm cfg hc hpf hmv s, stepCore_norm cfg hc hpf hmv s', h]
 
 theorem tokenEndFast_norm (s : St) (f : Fast) (b : UInt8) :
     nrF (tokenEndFast refTables cfg s f b) = nrF (tokenEndFast refTables cfg (norm s) f b) := by
@@ -876,7 +880,7 @@ theorem tokenEndFast_norm (s : St) (f : Fast) (b : UInt8) :
       have hd1 := addTokenP_dead h1
       have hn : norm (setScr (liveScr s.mode s) a) = norm a := norm_setScr_dead _ a hd1
       have hdl : nrS (deliver refTables cfg a) = nrS (deliver refTables cfg (setScr (liveScr s.mode s) a)) := by
-        rw [deliver_norm cfg hc a, deliver_norm cfg hc (setScr (liveScr s.mode s) a), hn]
+        rw [deliver_norm cfg hc hpf hmv a, deliver_norm cfg hc hpf hmv (setScr (liveScr s.mode s) a), hn]
       cases h3 : deliver refTables cfg a with
       | error e =>
         cases h4 : deliver refTables cfg (setScr (liveScr s.mode s) a) with
@@ -888,7 +892,7 @@ theorem tokenEndFast_norm (s : St) (f : Fast) (b : UInt8) :
         | ok a2' =>
           rw [h3, h4] at hdl
           simp only [nrS, mapS, Except.ok.injEq] at hdl
-          exact stepCore_congr cfg hc a2 a2' hdl _ b
+          exact stepCore_congr cfg hc hpf hmv a2 a2' hdl _ b
 
 theorem step_norm (s : St) (f : Fast) (b : UInt8) (l : Bool) :
     nrF (step refTables cfg s f b l) = nrF (step refTables cfg (norm s) f b l) := by
@@ -901,14 +905,14 @@ theorem step_norm (s : St) (f : Fast) (b : UInt8) (l : Bool) :
     · simp only [nrF]
       rw [addFeat_norm, addFeat_norm, norm_idem]
   · split
-    · exact tokenEndFast_norm cfg hc s _ b
+    · exact tokenEndFast_norm cfg hc hpf hmv s _ b
     · split
-      · exact stepCore_congr cfg hc _ _ (by rw [addFeat_norm, addFeat_norm, norm_idem]) _ b
-      · exact stepCore_norm cfg hc s _ b
+      · exact stepCore_congr cfg hc hpf hmv _ _ (by rw [addFeat_norm, addFeat_norm, norm_idem]) _ b
+      · exact stepCore_norm cfg hc hpf hmv s _ b
 
 theorem step_congr (s s' : St) (h : norm s = norm s') (f : Fast) (b : UInt8) (l : Bool) :
     nrF (step refTables cfg s f b l) = nrF (step refTables cfg s' f b l) := by
-  rw [step_norm cfg hc s, step_norm cfg hc s', h]
+  rw [step_norm cfg hc hpf hmv s, step_norm cfg hc hpf hmv s', h]
 
 end chain2
 
@@ -932,8 +936,8 @@ theorem norm_fields {s s' : St} (h : norm s = norm s') :
    show (norm s).evs = (norm s').evs by rw [h], show (norm s).tmp = (norm s').tmp by rw [h]⟩
 
 section chain3
-variable (cfg : Cfg) (hc : cfg.tokenizer = false)
-include hc
+variable (cfg : Cfg) (hc : cfg.tokenizer = false) (hpf : cfg.plusFault = false) (hmv : cfg.missingValue = false)
+include hc hpf hmv
 
 theorem runBytes_congr (bs : Bytes) : ∀ (s s' : St) (h : norm s = norm s') (f : Fast) (p : Pos),
     nrB (runBytes refTables cfg s f p bs) = nrB (runBytes refTables cfg s' f p bs) := by
@@ -941,7 +945,7 @@ theorem runBytes_congr (bs : Bytes) : ∀ (s s' : St) (h : norm s = norm s') (f 
   | nil => intro s s' h f p; simp [runBytes, nrB, h]
   | cons b r ih =>
     intro s s' h f p
-    have hs := step_congr cfg hc s s' h f b r.isEmpty
+    have hs := step_congr cfg hc hpf hmv s s' h f b r.isEmpty
     obtain ⟨hm, hf, hp, hl, hk, _⟩ := norm_fields h
     have hcf : (cellFeat refTables cfg s b).feat = (cellFeat refTables cfg s' b).feat := by
       unfold cellFeat St.addFeat
@@ -972,7 +976,7 @@ theorem runChunks_congr (cs : List Bytes) : ∀ (s s' : St) (h : norm s = norm s
   | nil => intro s s' h p; simp [runChunks, nrC, h]
   | cons c rest ih =>
     intro s s' h p
-    have hb := runBytes_congr cfg hc c s s' h {} { p with off := 0 }
+    have hb := runBytes_congr cfg hc hpf hmv c s s' h {} { p with off := 0 }
     simp only [runChunks]
     cases h1 : runBytes refTables cfg s {} { p with off := 0 } c with
     | error e =>
@@ -1020,7 +1024,7 @@ theorem finish_norm (s : St) (p : Pos) : finish refTables cfg s p = finish refTa
 
 theorem finish_congr (s s' : St) (h : norm s = norm s') (p : Pos) :
     finish refTables cfg s p = finish refTables cfg s' p := by
-  rw [finish_norm cfg hc s, finish_norm cfg hc s', h]
+  rw [finish_norm cfg hc hpf hmv s, finish_norm cfg hc hpf hmv s', h]
 
 end chain3
 
@@ -1031,17 +1035,17 @@ def tailCall (T : Tables) (cfg : Cfg) (s : St) (cs : List Bytes) : Except Err Ou
   | .ok (s', p) => finish T cfg s' p
 
 section final
-variable (cfg : Cfg) (hc : cfg.tokenizer = false)
-include hc
+variable (cfg : Cfg) (hc : cfg.tokenizer = false) (hpf : cfg.plusFault = false) (hmv : cfg.missingValue = false)
+include hc hpf hmv
 
-theorem entry_norm (prev prev' : St) (h1 : prev.plus = prev'.plus) (h2 : prev.lastKey = prev'.lastKey)
-    (h3 : prev.lastStrKey = prev'.lastStrKey) : norm prev.entry = norm prev'.entry := by
+theorem entry_norm (prev prev' : St) (h1 : cfg.keepPlus = true → prev.plus = prev'.plus) (h2 : prev.lastKey = prev'.lastKey)
+    (h3 : cfg.keepPlus = true → prev.lastStrKey = prev'.lastStrKey) : norm (prev.entry cfg) = norm (prev'.entry cfg) := by
   cases prev; cases prev'
-  simp_all [St.entry, norm, setScr, liveScr]
+  cases hk : cfg.keepPlus <;> simp_all [St.entry, norm, setScr, liveScr]
 
 theorem tailCall_congr (s s' : St) (he : norm s = norm s') (cs : List Bytes) :
     tailCall refTables cfg s cs = tailCall refTables cfg s' cs := by
-  have hr := runChunks_congr cfg hc cs _ _ he {}
+  have hr := runChunks_congr cfg hc hpf hmv cs _ _ he {}
   unfold tailCall
   cases h1 : runChunks refTables cfg s {} cs with
   | error e =>
@@ -1057,32 +1061,32 @@ theorem tailCall_congr (s s' : St) (he : norm s = norm s') (cs : List Bytes) :
       rw [h1, h2] at hr
       simp only [nrC, Except.ok.injEq, Prod.mk.injEq] at hr
       obtain ⟨hs, rfl⟩ := hr
-      exact finish_congr cfg hc s1 s1' hs p1
+      exact finish_congr cfg hc hpf hmv s1 s1' hs p1
 
 /-- a parser call over the reference tables depends on the state the previous call left only through
-`plus`, `lastKey` and `lastStrKey` -/
-theorem call_congr_ref (prev prev' : St) (h1 : prev.plus = prev'.plus) (h2 : prev.lastKey = prev'.lastKey)
-    (h3 : prev.lastStrKey = prev'.lastStrKey) (chunks : List Bytes) :
+`lastKey` — and, before ece2934 (`keepPlus`), `plus` and `lastStrKey` -/
+theorem call_congr_ref (prev prev' : St) (h1 : cfg.keepPlus = true → prev.plus = prev'.plus) (h2 : prev.lastKey = prev'.lastKey)
+    (h3 : cfg.keepPlus = true → prev.lastStrKey = prev'.lastStrKey) (chunks : List Bytes) :
     call refTables cfg prev chunks = call refTables cfg prev' chunks := by
-  have he := entry_norm cfg hc prev prev' h1 h2 h3
+  have he := entry_norm cfg hc hpf hmv prev prev' h1 h2 h3
   have hcall : ∀ pv : St, call refTables cfg pv chunks =
       match (if cfg.reader then Json.topUp (chunks.filter (!·.isEmpty)) else chunks) with
-      | [] => finish refTables cfg pv.entry {}
+      | [] => finish refTables cfg (pv.entry cfg) {}
       | c :: rest =>
         match (if cfg.reader then Json.bomRuleReader c else Json.bomRule c) with
         | .bad => .error { line := 1, col := 3, kind := .bom }
-        | .strip r => tailCall refTables cfg pv.entry (r :: rest)
-        | .keep => tailCall refTables cfg pv.entry (c :: rest) := by
+        | .strip r => tailCall refTables cfg (pv.entry cfg) (r :: rest)
+        | .keep => tailCall refTables cfg (pv.entry cfg) (c :: rest) := by
     intro pv
     unfold call tailCall
     rfl
   rw [hcall prev, hcall prev']
   split
-  · exact finish_congr cfg hc _ _ he {}
+  · exact finish_congr cfg hc hpf hmv _ _ he {}
   · split
     · rfl
-    · exact tailCall_congr cfg hc _ _ he _
-    · exact tailCall_congr cfg hc _ _ he _
+    · exact tailCall_congr cfg hc hpf hmv _ _ he _
+    · exact tailCall_congr cfg hc hpf hmv _ _ he _
 
 end final
 
